@@ -96,6 +96,7 @@ def build_cli(scratch):
     return out
 
 
+VERDICT = re.compile(r'<<\s*"V",\s*(-?\d+),\s*(-?\d+),\s*"([^"]*)",\s*"([^"]*)"\s*>>')
 TLC_STATS = re.compile(r"(\d+) states generated, (\d+) distinct states found")
 
 
@@ -110,12 +111,8 @@ class TlcResult:
         self.distinct = int(m.group(2)) if m else 0
         self.ok = rc == 0 and "Model checking completed. No error has been found." in out or \
             (rc == 0 and "Finished computing" in out and "Error:" not in out)
-        self.verdicts = []
-        for line in out.splitlines():
-            if line.startswith('<<"V"'):
-                body = line.strip()[2:-2]
-                parts = [x.strip().strip('"') for x in split_tuple(body)]
-                self.verdicts.append(parts)
+        # verdict tuples <<"V", line, case, property, reason>>; TLC wraps long tuples over several lines
+        self.verdicts = [["V", m.group(1), m.group(2), m.group(3), m.group(4)] for m in VERDICT.finditer(out)]
         self.printed = [l for l in out.splitlines() if l.startswith("<<") and not l.startswith('<<"V"')]
 
 
